@@ -23,6 +23,10 @@ var vfClients = []vfClient{
 	{"10.0.0.1", "remote", ""}, {"10.0.0.2", "xrealip", ""}, {"8.8.8.8", "xff", ""}, {"2001:db8::1", "remote", ""}, {"10.0.1.1", "remote", ""},
 	// the same clients in legal non-canonical spellings, as front proxies write them
 	{"8.8.8.8", "xff", "::ffff:8.8.8.8"}, {"2001:db8::1", "xrealip", "2001:DB8:0:0:0:0:0:1"}, {"10.0.0.2", "xrealip", "::ffff:10.0.0.2"},
+	// X-Forwarded-For lists with exactly ONE public address among private / loopback / link-local hops
+	// (leftmost-public and rightmost-public readings coincide, so the client IP is unambiguous)
+	{"8.8.8.8", "xff", "169.254.10.20, 8.8.8.8"}, {"8.8.8.8", "xff", "8.8.8.8, 10.9.9.9"}, {"8.8.8.8", "xff", "fe80::1, 192.168.3.4, 8.8.8.8"},
+	{"2001:db8::1", "xff", "127.0.0.1, 2001:db8::1, ::1"}, {"8.8.8.8", "xff", "fc00::7, 8.8.8.8, 169.254.0.1"},
 }
 
 var vfIPPool = []string{"10.0.0.1", "10.0.0.0/24", "10.0.0.0/31", "8.8.8.8", "8.8.8.0/24", "2001:db8::/32",
